@@ -511,13 +511,13 @@ theorem mem_snoc_cases {α} {l : List α} {a x : α} {P : α → Prop} (hl : ∀
 
 theorem sat_classify_any (S : Sim cfg) {infos : List (Path × Option Info)} :
     ∀ (l : List (Path × Option Info)) (pl : RollbackPlan) (w0 w : World), (∀ e ∈ l, e ∈ infos) →
-      SameFS w0 w → PlanOK infos pl →
+      SameFS w0 w → S.G w0.fs → PlanOK infos pl →
       Sat (classify cfg l pl) w (fun w' r => SameFS w0 w' ∧ ∀ pl', r = .ok pl' → PlanOK infos pl')
-  | [], pl, w0, w, _, hs, hpl => by
+  | [], pl, w0, w, _, hs, _, hpl => by
     unfold classify
     apply Sat.pure
     exact ⟨hs, fun pl' h => by cases h; exact hpl⟩
-  | (p, none) :: rest, pl, w0, w, hl, hs, hpl => by
+  | (p, none) :: rest, pl, w0, w, hl, hs, hg, hpl => by
     unfold classify
     have hmem : (p, none) ∈ infos := hl _ (by simp)
     have hl' : ∀ e ∈ rest, e ∈ infos := fun e he => hl e (List.mem_cons_of_mem _ he)
@@ -528,31 +528,40 @@ theorem sat_classify_any (S : Sim cfg) {infos : List (Path × Option Info)} :
     have hs1 := hs.trans h1
     simp only
     cases r with
-    | error e => exact sat_classify_any S rest _ w0 w1 hl' hs1 ⟨hpl.rem, hpl.dirs, hpl.files, hpl.links⟩
+    | error e => exact sat_classify_any S rest _ w0 w1 hl' hs1 hg ⟨hpl.rem, hpl.dirs, hpl.files, hpl.links⟩
     | ok o =>
       cases o with
-      | none => exact sat_classify_any S rest _ w0 w1 hl' hs1 hpl
+      | none => exact sat_classify_any S rest _ w0 w1 hl' hs1 hg hpl
       | some i =>
-        exact sat_classify_any S rest _ w0 w1 hl' hs1
+        exact sat_classify_any S rest _ w0 w1 hl' hs1 hg
           ⟨fun x hx => mem_snoc_cases (P := fun y => (y, none) ∈ infos) hpl.rem hmem hx, hpl.dirs, hpl.files, hpl.links⟩
-  | (p, some i) :: rest, pl, w0, w, hl, hs, hpl => by
+  | (p, some i) :: rest, pl, w0, w, hl, hs, hg, hpl => by
     unfold classify
     have hmem : (p, some i) ∈ infos := hl _ (by simp)
     have hl' : ∀ e ∈ rest, e ∈ infos := fun e he => hl e (List.mem_cons_of_mem _ he)
     split
-    · exact sat_classify_any S rest _ w0 w hl' hs hpl
+    · rename_i hp; subst hp
+      have hgw : S.G w.fs := by rw [hs.fs]; exact hg
+      apply Sat.bind
+      apply (sat_ensureRoot (S := S) hgw i).mono
+      intro w1 r1 ⟨h1, f, hr1, _⟩
+      subst hr1
+      simp only
+      cases f
+      · exact sat_classify_any S rest _ w0 w1 hl' (hs.trans h1) hg hpl
+      · exact sat_classify_any S rest _ w0 w1 hl' (hs.trans h1) hg ⟨hpl.rem, hpl.dirs, hpl.files, hpl.links⟩
     · rename_i hp
       cases hkind : i.kind with
       | dir =>
-        exact sat_classify_any S rest _ w0 w hl' hs
+        exact sat_classify_any S rest _ w0 w hl' hs hg
           ⟨hpl.rem, fun x hx => mem_snoc_cases (P := fun y => y ≠ rootP ∧ ∃ i, (y, some i) ∈ infos ∧ i.kind = .dir)
             hpl.dirs ⟨hp, i, hmem, hkind⟩ hx, hpl.files, hpl.links⟩
       | file =>
-        exact sat_classify_any S rest _ w0 w hl' hs
+        exact sat_classify_any S rest _ w0 w hl' hs hg
           ⟨hpl.rem, hpl.dirs, fun x hx => mem_snoc_cases (P := fun y => y ≠ rootP ∧ ∃ i, (y, some i) ∈ infos ∧ i.kind = .file)
             hpl.files ⟨hp, i, hmem, hkind⟩ hx, hpl.links⟩
       | link =>
-        exact sat_classify_any S rest _ w0 w hl' hs
+        exact sat_classify_any S rest _ w0 w hl' hs hg
           ⟨hpl.rem, hpl.dirs, hpl.files, fun x hx => mem_snoc_cases (P := fun y => y ≠ rootP ∧ ∃ i, (y, some i) ∈ infos ∧ i.kind = .link)
             hpl.links ⟨hp, i, hmem, hkind⟩ hx⟩
 
@@ -665,7 +674,7 @@ theorem sat_rollback_foot {w : World} (hg : S.G w.fs)
   apply Sat.getW
   simp only
   apply Sat.bind
-  apply (sat_classify_any S (infos := w.infos) w.infos {} w w (fun _ h => h) (SameFS.refl w) (PlanOK.empty _)).mono
+  apply (sat_classify_any S (infos := w.infos) w.infos {} w w (fun _ h => h) (SameFS.refl w) hg (PlanOK.empty _)).mono
   intro w1 r ⟨hs1, hplan⟩
   have h1 : PR w1 := Sim.Foot.of_same hg hs1
   cases r with
